@@ -59,6 +59,14 @@ func outKeyOf(h *Hist, v nodesTypes.Validator) (chain.Key, bool) {
 	return k, ok
 }
 
+func distinct(cs []string) int {
+	m := map[string]bool{}
+	for _, c := range cs {
+		m[strings.ToLower(c)] = true
+	}
+	return len(m)
+}
+
 func delStr(d map[string]uint32) string {
 	if len(d) == 0 {
 		return "-"
@@ -87,11 +95,62 @@ func (h *Hist) genDelegators(cur map[string]uint32) map[string]uint32 {
 	}
 }
 
+// lookupChains: the network identifiers queried through the real GetValidatorsByChain after every block: a fixed
+// base, every identifier declared by a record of the end-of-block state, and for every record declaring a 1-byte
+// identifier c the 2-byte identifier c||address[0] (the index key 0x22||c||address is also a key under the prefix
+// 0x22||c||address[0]).  At most 14 per block.
+func (h *Hist) lookupChains() []string {
+	set := map[string]bool{"0001": true, "0021": true, "00": true}
+	if h.mode == "c21" || h.mode == "all" {
+		set["21"] = true
+	}
+	var dyn []string
+	for _, k := range h.snap.Order {
+		v := h.snap.Vals[k]
+		for _, c := range v.Chains {
+			c = strings.ToLower(c)
+			if !set[c] {
+				set[c] = true
+				dyn = append(dyn, c)
+			}
+			if len(c) == 2 && len(v.Address) > 0 {
+				q := c + fmt.Sprintf("%02x", v.Address[0])
+				if !set[q] {
+					set[q] = true
+					dyn = append(dyn, q)
+				}
+			}
+		}
+	}
+	sort.Strings(dyn)
+	out := []string{"0001", "0021", "00"}
+	if set["21"] {
+		out = append(out, "21")
+	}
+	for _, c := range dyn {
+		if len(out) >= 14 {
+			break
+		}
+		if c != "21" {
+			out = append(out, c)
+		}
+	}
+	return out
+}
+
 func (h *Hist) genChains(cur []string) []string {
 	r := h.r
 	if len(cur) >= 1 && r.Chance(h.w(1, "c21", 2), 4) {
-		// edits derived from the current list: same length with a repeated chain (dropping another), permutation,
-		// superset, subset, duplicate of everything
+		return h.deriveChains(cur)
+	}
+	return h.freshChains(cur)
+}
+
+// deriveChains: a chain list derived from the current one: same length with a repeated chain (dropping another),
+// permutation, superset, subset, one chain replaced, duplicate of everything
+func (h *Hist) deriveChains(cur []string) []string {
+	r := h.r
+	{
 		extra := []string{"0003", "0021", "0040", "0001"}[r.Intn(4)]
 		switch r.Intn(6) {
 		case 0: // repeat one chain in place of another (same length, one chain dropped)
@@ -124,6 +183,10 @@ func (h *Hist) genChains(cur []string) []string {
 			return append(append([]string{}, cur...), cur...)
 		}
 	}
+}
+
+func (h *Hist) freshChains(cur []string) []string {
+	r := h.r
 	switch h.r.Intn(12) {
 	case 0, 1, 2, 8, 9, 10:
 		if len(cur) > 0 {
@@ -140,7 +203,9 @@ func (h *Hist) genChains(cur []string) []string {
 		return []string{"0040", "0001"}
 	case 7:
 		if h.mode == "c21" || h.mode == "all" {
-			return []string{"00", "0021"} // a 1-byte network identifier (accepted by ValidateNetworkIdentifier)
+			// 1-byte network identifiers (accepted by ValidateNetworkIdentifier) next to 2-byte identifiers that
+			// start with the same byte: the keys 0x22||id||address of the two lengths share prefixes
+			return [][]string{{"00", "0021"}, {"21", "0001"}, {"2100"}, {"21ff", "0021"}, {"21", "2100"}, {"00", "21", "21ff"}}[r.Intn(6)]
 		}
 		return []string{"0001"}
 	default:
@@ -228,7 +293,7 @@ func (h *Hist) action(height int64, bt time.Time, codes map[string]int, txs *[][
 	}
 	menu := []choice{
 		{h.w(14, "c23", 6), "stakenew"}, {h.w(h.w(5, "c19", 12), "c24", 12), "restake"}, {h.w(16, "c23", 40), "edit"}, {h.w(12, "c24", 22), "unstake"}, {h.w(10, "c25", 18), "unjail"},
-		{h.w(7, "c22", 14), "param"}, {h.w(8, "c25", 18), "slash"}, {4, "burnchal"}, {4, "reward"}, {h.w(2, "c19", 5), "send"},
+		{h.w(7, "c22", 14), "param"}, {h.w(8, "c25", 18), "slash"}, {4, "burnchal"}, {4, "reward"}, {h.w(2, "c19", 5), "send"}, {h.w(2, "c21", 12), "chainedit"},
 	}
 	if height < 3 {
 		// transactions of block h are decoded with the rules of height h-1: the modern node messages exist from block 3
@@ -389,6 +454,31 @@ func (h *Hist) action(height int64, bt time.Time, codes map[string]int, txs *[][
 		}
 		bz := chain.SignTx(chainID, signer, chain.MsgNodeStake(k, amt, chains, url, out, del), fee, h.nextEntropy(), "")
 		line := h.stakeLine(height, signer, k, amt, chains, url, out, del)
+		res, taken := h.deliver(height, bt, bz, txs, results)
+		record(line, res, taken)
+	case "chainedit":
+		// an edit-stake that changes nothing but the chain list (same amount, output, delegators and url, signed by
+		// the operator), so that it is accepted; nodes declaring several distinct chains are preferred
+		if len(staked) == 0 {
+			return
+		}
+		v := staked[r.Intn(len(staked))]
+		for i := 0; i < 3 && distinct(v.Chains) < 2; i++ {
+			v = staked[r.Intn(len(staked))]
+		}
+		k := h.keyOf[v.Address.String()]
+		out := v.OutputAddress
+		if out == nil {
+			out = k.Addr
+		}
+		var chains []string
+		if distinct(v.Chains) < 2 {
+			chains = append(append([]string{}, v.Chains...), []string{"0003", "0021", "0040", "0001", "21", "2100"}[r.Intn(6)])
+		} else {
+			chains = h.deriveChains(v.Chains)
+		}
+		bz := chain.SignTx(chainID, k, chain.MsgNodeStake(k, v.StakedTokens.Int64(), chains, v.ServiceURL, out, v.RewardDelegators), fee, h.nextEntropy(), "")
+		line := h.stakeLine(height, k, k, v.StakedTokens.Int64(), chains, v.ServiceURL, out, v.RewardDelegators)
 		res, taken := h.deliver(height, bt, bz, txs, results)
 		record(line, res, taken)
 	case "unstake":
